@@ -7,6 +7,7 @@ C13 — line-protocol driver.  Ops (fields TAB-separated, strings hex of UTF-8):
   uesc    <bytes>                                                      unicode_escape decoder
   dqrepr  <s>                                                          utils.str.dqrepr
   quote   <s>                                                          manual quoting (the writer of `quote_roundtrip`)
+  uname   <name bytes> <code point>                                    one entry of the Unicode name table (state)
 Trees: leaf = `l` + decimal code points joined by `.`, node = `(` children joined by blank `)`.
 -/
 import LimnoriaModel.C13.Model
@@ -29,7 +30,8 @@ end
 def VErr.name : VErr → String
   | .noClosingQuotation => "noClosingQuotation" | .backslashAtEnd => "backslashAtEnd"
   | .truncatedX => "truncatedX" | .truncatedU => "truncatedU" | .truncatedBigU => "truncatedBigU"
-  | .illegalUnicode => "illegalUnicode"
+  | .illegalUnicode => "illegalUnicode" | .malformedN => "malformedN" | .unknownName => "unknownName"
+  | .surrogate => "surrogate"
 
 def SErr.name : SErr → String
   | .missingRight => "missingRight" | .spuriousRight => "spuriousRight"
@@ -42,14 +44,12 @@ def encPR {α : Type} (f : α → String) : PR α → String
   | .ok a => "ok\t" ++ f a
   | .valueError e => "ValueError\t" ++ e.name
   | .syntaxError e => "SyntaxError\t" ++ e.name
-  | .outside => "outside"
   | .crash c => "crash\t" ++ c.name
 
 def encResult : Result → String
   | .tree ts => "tree\t" ++ encTrees ts
   | .syntaxError (.value e) => "syntax\t" ++ e.name
   | .syntaxError (.syn e) => "syntax\t" ++ e.name
-  | .outside => "outside"
   | .crash c => "crash\t" ++ c.name
 
 def decBool (f : String) : Option Bool :=
@@ -64,15 +64,17 @@ def lexAll (cfg : LexCfg) : Nat → Lexer → List Str → String
     | .valueError => encList acc.reverse ++ "\tValueError"
     | .hang => "hang"
 
-def drive : List String → String
+def lookupName (tab : List (List UInt8 × Nat)) : Names := fun n => tab.lookup n
+
+def drive (tab : List (List UInt8 × Nat)) : List String → String
   | ["tok", n, b, p, q, s] =>
     match decBool n, dec b, decBool p, dec q, dec s with
-    | some n, some b, some p, some q, some s => encResult (tokenize ⟨n, b, p, q⟩ s)
+    | some n, some b, some p, some q, some s => encResult (tokenize ⟨n, b, p, q, lookupName tab⟩ s)
     | _, _, _, _, _ => "bad-op"
   | ["T", b, p, q, s] =>
     match dec b, decBool p, dec q, dec s with
     | some b, some p, some q, some s =>
-      (match mkTokenizer b p q with
+      (match mkTokenizer b p q (lookupName tab) with
        | .error c => "crash\t" ++ c.name
        | .ok T => encPR encTrees (tokenizeT T s))
     | _, _, _, _ => "bad-op"
@@ -82,19 +84,25 @@ def drive : List String → String
     | _, _, _, _ => "bad-op"
   | ["handle", q, t] =>
     match dec q, dec t with
-    | some q, some t => encPR encCps (handleToken q t)
+    | some q, some t => encPR encCps (handleToken (lookupName tab) q t)
     | _, _ => "bad-op"
   | ["uesc", b] =>
     match decBytes b with
     | some bs =>
-      (match uesc .normal bs with
+      (match uesc (lookupName tab) .normal bs with
        | .ok cps => "ok\t" ++ encCps cps
-       | .error (.verr e) => "ValueError\t" ++ e.name
-       | .error .named => "outside")
+       | .error e => "ValueError\t" ++ e.name)
     | none => "bad-op"
   | ["dqrepr", s] => (match dec s with | some s => enc (dqrepr s) | none => "bad-op")
   | ["quote", s] => (match dec s with | some s => enc (quote s) | none => "bad-op")
   | _ => "bad-op"
 
-def handler : Driver.Handler := Driver.pureHandler drive
+def step (tab : List (List UInt8 × Nat)) : List String → List (List UInt8 × Nat) × String
+  | ["uname", n, cp] =>
+    match decBytes n, cp.toNat? with
+    | some n, some cp => ((n, cp) :: tab, "ok")
+    | _, _ => (tab, "bad-op")
+  | fs => (tab, drive tab fs)
+
+def handler : Driver.Handler := { σ := List (List UInt8 × Nat), init := [], step := step }
 end C13
